@@ -330,12 +330,14 @@ outer:
 		}
 	}
 
+	// quirks change the capabilities: apply them before any mode is set, so
+	// that Suspend, Close and Resume work with the same set
+	vx.applyQuirks()
 	vx.enterAltScreen()
 	vx.enableModes()
 	if !opts.NoSignals {
 		vx.setupSignals()
 	}
-	vx.applyQuirks()
 
 	switch os.Getenv("VAXIS_GRAPHICS") {
 	case "none":
